@@ -8,9 +8,9 @@
    sched descs] is one OFFERS round: [offers] as received, [sched] the order in which the offer
    goroutines obtain descriptorsMu, [descs] the deployment request.  Every theorem about a round
    holds for every schedule [sched] (no bound on the number of offers, descriptors, constraint
-   levels, channels, ranges).  [Done acc dec ab still und]: ACCEPT calls (offer, launched tasks),
-   the DECLINE set, offers on which a task was abandoned after the offer had been taken out of the
-   decline set, descriptors not deployed / undeployable. *)
+   levels, channels, ranges).  [Done acc dec still und]: ACCEPT calls (offer, launched tasks), the
+   DECLINE set, descriptors not deployed / undeployable.  The model describes the code after the
+   repairs C05-a..g; the old behaviours are violation classes of the monitor [mon05]. *)
 From Verif Require Import Common Gen_Placement Placement Placement_proofs.
 Open Scope N_scope.
 
@@ -26,8 +26,8 @@ Print Assumptions C05_satisfy_all_constraints.
 
 (* a task is launched only on an agent whose attributes satisfy every constraint of its merged
    constraint list (task template and all enclosing roles) *)
-Theorem C05_constraints : forall exec offers sched descs acc dec ab still und o ts t c,
-  run_round exec offers sched descs = Done acc dec ab still und ->
+Theorem C05_constraints : forall exec offers sched descs acc dec still und o ts t c,
+  run_round exec offers sched descs = Done acc dec still und ->
   In (o, ts) acc -> In t ts ->
   In c (d_constraints (t_desc t)) -> is_equals c = true -> sat1 (o_attrs o) c = true.
 Proof. exact round_constraints. Qed.
@@ -52,60 +52,52 @@ Theorem C05_merge_nothing_invented : forall levels k x,
 Proof. exact desc_constraints_in. Qed.
 Print Assumptions C05_merge_nothing_invented.
 
-(* "a nearer definition of the same attribute overrides a farther one", at every tree depth *)
-Definition C05_merge_nearest_statement : Prop :=
-  forall levels k a, levels <> [] ->
-    lookup_c a (desc_constraints levels k) = nearest a (all_levels levels k).
+(* "a nearer definition of the same attribute overrides a farther one" (repaired, C05-e): for
+   every tree depth and every distribution of an attribute over the levels - duplicates inside
+   any role's own list included - the constraints of the roles name no attribute twice and read
+   as the nearest definition *)
+Theorem C05_role_constraints_nearest : forall levels,
+  NoDup (attrs_of (get_constraints levels)) /\
+  forall a, lookup_c a (get_constraints levels) = nearest a levels.
+Proof. exact get_constraints_nearest. Qed.
+Print Assumptions C05_role_constraints_nearest.
 
-(* refuted by the unchanged code (finding C05-e): the top-level role names zone twice *)
-Theorem C05_merge_nearest_refuted : ~ C05_merge_nearest_statement.
-Proof. exact merge_nearest_refuted. Qed.
-Print Assumptions C05_merge_nearest_refuted.
+(* with the class constraints as the farthest level: the nearest definition of every attribute
+   is an entry of the merged list, whatever the lists look like ... *)
+Theorem C05_merge_has_nearest : forall levels k a v,
+  nearest a (all_levels levels k) = Some v ->
+  exists c, In c (desc_constraints levels k) /\ c_attr c = a /\ c_val c = v.
+Proof. exact desc_constraints_has_nearest. Qed.
+Print Assumptions C05_merge_has_nearest.
 
-(* exact side condition: the top-level role's own list and the class list name no attribute
-   twice; then, for every depth and every distribution of an attribute over the levels, the merged
-   list names no attribute twice and reads as the nearest definition *)
-Theorem C05_merge_nearest_partial : forall levels k,
-  levels <> [] ->
-  NoDup (attrs_of (last levels [])) ->
+(* ... and when the class list names no attribute twice the merged list does not either and
+   reads as the nearest definition (a class list with a duplicate keeps both entries: the task
+   is then only more constrained) *)
+Theorem C05_merge_nearest : forall levels k,
   match k with Some kc => NoDup (attrs_of kc) | None => True end ->
   NoDup (attrs_of (desc_constraints levels k)) /\
   forall a, lookup_c a (desc_constraints levels k) = nearest a (all_levels levels k).
 Proof. exact desc_constraints_nearest. Qed.
-Print Assumptions C05_merge_nearest_partial.
+Print Assumptions C05_merge_nearest.
 
-(* the property's first sentence end to end: a launched task's agent satisfies the nearest
-   definition of every attribute *)
-Definition C05_constraints_nearest_statement : Prop :=
-  forall exec offers sched descs acc dec ab still und o ts t k a v,
-    run_round exec offers sched descs = Done acc dec ab still und ->
+(* the property's first sentence end to end, for every constraint lists: a launched task's agent
+   satisfies the nearest definition of every attribute (Equals is the only operator that exists) *)
+Theorem C05_constraints_nearest :
+  forall exec offers sched descs acc dec still und o ts t k a v,
+    run_round exec offers sched descs = Done acc dec still und ->
     In (o, ts) acc -> In t ts -> d_class (t_desc t) = Some k ->
-    nearest a (d_levels (t_desc t) ++ [k_cts k]) = Some v ->
-    sat1 (o_attrs o) (mkC a v 0) = true.
-
-Theorem C05_constraints_nearest_refuted : ~ C05_constraints_nearest_statement.
-Proof. exact constraints_nearest_refuted. Qed.
-Print Assumptions C05_constraints_nearest_refuted.
-
-Theorem C05_constraints_nearest_partial :
-  forall exec offers sched descs acc dec ab still und o ts t k a v,
-    run_round exec offers sched descs = Done acc dec ab still und ->
-    In (o, ts) acc -> In t ts -> d_class (t_desc t) = Some k ->
-    d_levels (t_desc t) <> [] ->
-    NoDup (attrs_of (last (d_levels (t_desc t)) [])) ->
-    NoDup (attrs_of (k_cts k)) ->
     (forall l, In l (d_levels (t_desc t) ++ [k_cts k]) -> forallb is_equals l = true) ->
     nearest a (d_levels (t_desc t) ++ [k_cts k]) = Some v ->
     sat1 (o_attrs o) (mkC a v 0) = true.
 Proof. exact round_constraints_nearest. Qed.
-Print Assumptions C05_constraints_nearest_partial.
+Print Assumptions C05_constraints_nearest.
 
 (* ------------------------------------------------------------------ resources *)
 
 (* a launched task has a known class, and the offer's cpu, memory and (for well-formed ranges)
    ports cover what the template asks for *)
-Theorem C05_resources_cover : forall exec offers sched descs acc dec ab still und o ts t k,
-  run_round exec offers sched descs = Done acc dec ab still und ->
+Theorem C05_resources_cover : forall exec offers sched descs acc dec still und o ts t k,
+  run_round exec offers sched descs = Done acc dec still und ->
   In (o, ts) acc -> In t ts -> d_class (t_desc t) = Some k ->
   (exists c, o_cpu o = Some c /\ k_cpu k <= c) /\
   (exists m, o_mem o = Some m /\ k_mem k <= m) /\
@@ -114,8 +106,8 @@ Theorem C05_resources_cover : forall exec offers sched descs acc dec ab still un
 Proof. exact round_resources. Qed.
 Print Assumptions C05_resources_cover.
 
-Theorem C05_launched_has_class : forall exec offers sched descs acc dec ab still und o ts t,
-  run_round exec offers sched descs = Done acc dec ab still und ->
+Theorem C05_launched_has_class : forall exec offers sched descs acc dec still und o ts t,
+  run_round exec offers sched descs = Done acc dec still und ->
   In (o, ts) acc -> In t ts -> exists k, d_class (t_desc t) = Some k.
 Proof. exact round_class. Qed.
 Print Assumptions C05_launched_has_class.
@@ -135,8 +127,8 @@ Print Assumptions C05_resources_satisfy_sound.
 
 (* every dynamic port and the control port come from the offer, dynamic ports lie above the data
    cut-off and the control port above the control cut-off (both read from scheduler.go) *)
-Theorem C05_ports_from_offer : forall exec offers sched descs acc dec ab still und o ts t,
-  run_round exec offers sched descs = Done acc dec ab still und ->
+Theorem C05_ports_from_offer : forall exec offers sched descs acc dec still und o ts t,
+  run_round exec offers sched descs = Done acc dec still und ->
   In (o, ts) acc -> In t ts -> pvalid (o_ports o) ->
   (forall p, In p (picked t) -> pmem p (o_ports o) = true) /\
   (forall p, In p (map snd (t_dyn t)) -> data_port_floor < p) /\
@@ -146,8 +138,8 @@ Print Assumptions C05_ports_from_offer.
 
 (* one dynamic port per inbound TCP channel (role channels first, a name counts once; IPC
    channels take none), and the control port is handed over exactly to controllable tasks *)
-Theorem C05_ports_per_channel : forall exec offers sched descs acc dec ab still und o ts t k,
-  run_round exec offers sched descs = Done acc dec ab still und ->
+Theorem C05_ports_per_channel : forall exec offers sched descs acc dec still und o ts t k,
+  run_round exec offers sched descs = Done acc dec still und ->
   In (o, ts) acc -> In t ts -> d_class (t_desc t) = Some k ->
   map fst (t_dyn t) = map ch_name (filter ch_tcp (merge_inbound (d_rbind (t_desc t)) (k_bind k))) /\
   t_handed t = (if k_controllable k then Some (t_ctl t) else None).
@@ -163,8 +155,8 @@ Print Assumptions C05_static_as_written.
 
 (* ... and the TaskInfo asks for exactly these static ranges, the dynamic ports and the control
    port; its cpu / memory are the template's plus the executor's share *)
-Theorem C05_request_as_written : forall exec offers sched descs acc dec ab still und o ts t k,
-  run_round exec offers sched descs = Done acc dec ab still und ->
+Theorem C05_request_as_written : forall exec offers sched descs acc dec still und o ts t k,
+  run_round exec offers sched descs = Done acc dec still und ->
   In (o, ts) acc -> In t ts -> d_class (t_desc t) = Some k ->
   t_cpu t = k_cpu k + fst exec /\ t_mem t = k_mem k + snd exec /\
   (Forall rvalid (k_static k) ->
@@ -172,67 +164,45 @@ Theorem C05_request_as_written : forall exec offers sched descs acc dec ab still
 Proof. exact round_request. Qed.
 Print Assumptions C05_request_as_written.
 
-(* ports handed to tasks are pairwise distinct on an agent *)
-Definition C05_ports_distinct_statement : Prop :=
-  forall exec offers sched descs acc dec ab still und o ts,
-    run_round exec offers sched descs = Done acc dec ab still und ->
-    In (o, ts) acc -> pvalid (o_ports o) ->
-    NoDup (all_picked ts) /\
-    (forall t k p, In t ts -> d_class (t_desc t) = Some k -> inr p (k_static k) = true ->
-                   ~ In p (all_picked ts)) /\
-    (forall i j ti tj ki kj p, i <> j -> nth_error ts i = Some ti -> nth_error ts j = Some tj ->
-        d_class (t_desc ti) = Some ki -> d_class (t_desc tj) = Some kj ->
-        inr p (k_static ki) = true -> inr p (k_static kj) = false).
-
-(* refuted by the unchanged code (finding C05-c): static 9000 = first dynamic port *)
-Theorem C05_ports_distinct_refuted : ~ C05_ports_distinct_statement.
-Proof. exact ports_distinct_refuted. Qed.
-Print Assumptions C05_ports_distinct_refuted.
-
-(* what does hold: all dynamic and control ports of all tasks of an offer are pairwise distinct,
-   they differ from every static port at or below the data cut-off, and from the picks on any
-   other offer whose ports are disjoint (two offers of one agent) *)
-Theorem C05_ports_distinct_partial : forall exec offers sched descs acc dec ab still und o ts,
-  run_round exec offers sched descs = Done acc dec ab still und ->
+(* ports handed to tasks are pairwise distinct on an agent (repaired, C05-c: the static ranges
+   are claimed before any port is picked, and everything a task holds is taken out of what is left
+   for the next one).  [claimed p t]: p is a dynamic port, the control port or - the task's static
+   ranges being well formed - a static port of t.  No port is held by two tasks of an offer;
+   within a task the dynamic and control ports differ from each other and from its static ports;
+   tasks on offers with disjoint ports (two offers of one agent) never share a port. *)
+Theorem C05_ports_distinct : forall exec offers sched descs acc dec still und o ts,
+  run_round exec offers sched descs = Done acc dec still und ->
   In (o, ts) acc -> pvalid (o_ports o) ->
+  ForallOrdPairs disjoint_claims ts /\
   NoDup (all_picked ts) /\
-  (forall t k p, In t ts -> d_class (t_desc t) = Some k -> inr p (k_static k) = true ->
-                 p <= data_port_floor -> ~ In p (all_picked ts)) /\
-  (forall o2 ts2, In (o2, ts2) acc -> pvalid (o_ports o2) ->
-                  (forall p, pmem p (o_ports o) = true -> pmem p (o_ports o2) = false) ->
-                  forall p, In p (all_picked ts) -> ~ In p (all_picked ts2)).
+  (forall t, In t ts -> NoDup (picked t) /\
+     (Forall rvalid (static_of_task t) -> forall p, In p (picked t) -> inr p (static_of_task t) = false)) /\
+  (forall o2 ts2 t t2, In (o2, ts2) acc -> pvalid (o_ports o2) ->
+     (forall p, pmem p (o_ports o) = true -> pmem p (o_ports o2) = false) ->
+     In t ts -> In t2 ts2 -> disjoint_claims t t2).
 Proof. exact round_ports_distinct. Qed.
-Print Assumptions C05_ports_distinct_partial.
+Print Assumptions C05_ports_distinct.
 
 (* ------------------------------------------------------------------ sum over one offer *)
 
-Definition C05_request_within_offer_statement : Prop :=
-  forall exec offers sched descs acc dec ab still und o ts,
-    run_round exec offers sched descs = Done acc dec ab still und ->
-    In (o, ts) acc -> ts <> [] ->
-    exists c m, o_cpu o = Some c /\ o_mem o = Some m /\
-                sumN (map want_cpu ts) <= c /\ sumN (map want_mem ts) <= m.
+(* what is requested for all tasks launched on one offer does not exceed that offer (repaired,
+   C05-d: every complete request is subtracted from what is left): the template wants of all
+   tasks of an offer add up to at most the offered cpu / memory, and the TaskInfo totals exceed
+   the offer by at most one executor share *)
+Theorem C05_request_within_offer : forall exec offers sched descs acc dec still und o ts,
+  run_round exec offers sched descs = Done acc dec still und ->
+  In (o, ts) acc -> ts <> [] ->
+  exists c m, o_cpu o = Some c /\ o_mem o = Some m /\
+              sumN (map want_cpu ts) <= c /\ sumN (map want_mem ts) <= m /\
+              used_cpu ts <= c + fst exec /\ used_mem ts <= m + snd exec.
+Proof. exact round_request_within_offer. Qed.
+Print Assumptions C05_request_within_offer.
 
-(* refuted by the unchanged code (finding C05-d): two 0.6-cpu tasks on a 1.0-cpu offer *)
-Theorem C05_request_within_offer_refuted : ~ C05_request_within_offer_statement.
-Proof. exact request_within_offer_refuted. Qed.
-Print Assumptions C05_request_within_offer_refuted.
-
-(* exact side condition: one task on the offer *)
-Theorem C05_request_within_offer_partial :
-  forall exec offers sched descs acc dec ab still und o t,
-    run_round exec offers sched descs = Done acc dec ab still und ->
-    In (o, [t]) acc ->
-    exists c m, o_cpu o = Some c /\ o_mem o = Some m /\
-                sumN (map want_cpu [t]) <= c /\ sumN (map want_mem [t]) <= m.
-Proof. exact request_within_offer_single. Qed.
-Print Assumptions C05_request_within_offer_partial.
-
-(* even a single TaskInfo may ask for more than the offer holds (finding C05-h: the executor's
-   share is added after the comparison); C05_request_as_written gives the exact amount *)
+(* that one executor share is real (finding C05-h, kept: the executor's resources are added to
+   the request after Resources.Satisfy compared the wants alone) *)
 Definition C05_taskinfo_within_offer_statement : Prop :=
-  forall exec offers sched descs acc dec ab still und o t,
-    run_round exec offers sched descs = Done acc dec ab still und ->
+  forall exec offers sched descs acc dec still und o t,
+    run_round exec offers sched descs = Done acc dec still und ->
     In (o, [t]) acc ->
     exists c m, o_cpu o = Some c /\ o_mem o = Some m /\ t_cpu t <= c /\ t_mem t <= m.
 
@@ -242,63 +212,42 @@ Print Assumptions C05_taskinfo_within_offer_refuted.
 
 (* ------------------------------------------------------------------ decline *)
 
-Definition C05_unused_declined_statement : Prop :=
-  forall exec offers sched descs acc dec ab still und,
-    run_round exec offers sched descs = Done acc dec ab still und ->
-    (forall o ts, In (o, ts) acc -> ts <> [] -> ~ In (o_id o) dec) /\
-    (forall o, In o offers -> ~ In (o_id o) dec ->
-       exists o' ts, In (o', ts) acc /\ o_id o' = o_id o /\ ts <> []).
-
-(* refuted by the unchanged code (finding C05-f): the offer is taken out of the decline set,
-   then the task is abandoned because the ports resource is used up *)
-Theorem C05_unused_declined_refuted : ~ C05_unused_declined_statement.
-Proof. exact unused_declined_refuted. Qed.
-Print Assumptions C05_unused_declined_refuted.
-
-(* for every schedule: an offer with a launched task is never declined; an offer that is not
-   declined carries a launched task or is one of the abandoned ones *)
-Theorem C05_unused_declined_partial : forall exec offers sched descs acc dec ab still und,
-  run_round exec offers sched descs = Done acc dec ab still und ->
-  (forall o ts, In (o, ts) acc -> ts <> [] -> ~ In (o_id o) dec) /\
-  (forall o, In o offers -> ~ In (o_id o) dec ->
-     (exists o' ts, In (o', ts) acc /\ o_id o' = o_id o /\ ts <> []) \/ In (o_id o) ab).
-Proof. exact round_decline. Qed.
-Print Assumptions C05_unused_declined_partial.
-
-(* the full statement under the exact side condition "no task was abandoned late" *)
-Theorem C05_unused_declined_no_abandon : forall exec offers sched descs acc dec still und,
-  run_round exec offers sched descs = Done acc dec [] still und ->
+(* offers that are not used are declined (repaired, C05-f: an offer leaves the decline set only
+   when a task is complete) - for every schedule: an offer with a launched task is never declined,
+   and an offer that is not declined carries a launched task *)
+Theorem C05_unused_declined : forall exec offers sched descs acc dec still und,
+  run_round exec offers sched descs = Done acc dec still und ->
   (forall o ts, In (o, ts) acc -> ts <> [] -> ~ In (o_id o) dec) /\
   (forall o, In o offers -> ~ In (o_id o) dec ->
      exists o' ts, In (o', ts) acc /\ o_id o' = o_id o /\ ts <> []).
-Proof. exact unused_declined_no_abandon. Qed.
-Print Assumptions C05_unused_declined_no_abandon.
+Proof. exact round_decline. Qed.
+Print Assumptions C05_unused_declined.
 
-(* ------------------------------------------------------------------ observation: the crash *)
+(* ------------------------------------------------------------------ the handler finishes *)
 
-Definition C05_round_completes_statement : Prop :=
-  forall exec offers sched descs,
-    (forall o, In o offers -> pvalid (o_ports o)) -> run_round exec offers sched descs <> Crash.
-
-(* finding C05-g: an offer without a port above the control cut-off makes Ranges.Min panic *)
-Theorem C05_round_crash_witness : ~ C05_round_completes_statement.
-Proof. exact round_crash_witness. Qed.
-Print Assumptions C05_round_crash_witness.
+(* repaired, C05-g: a port is only picked from a non-empty set, otherwise the task does not fit;
+   every round ends with an outcome (the model has no crash outcome any more; a crash observed
+   on the implementation is monitor class 20/21) *)
+Theorem C05_round_completes : forall exec offers sched descs,
+  exists acc dec still und, run_round exec offers sched descs = Done acc dec still und.
+Proof. exact run_round_completes. Qed.
+Print Assumptions C05_round_completes.
 
 (* ------------------------------------------------------------------ non-vacuity *)
 Definition k_static_of (d : desc) : ranges :=
   match d_class d with Some k => k_static k | None => [] end.
 (* a concrete round in which a constrained task with a static range, a TCP channel and a control
-   port is launched: the hypotheses of the round theorems are satisfiable *)
+   port is launched next to a second task: the hypotheses of the round theorems are satisfiable *)
 Example C05_nonvacuous :
-  exists o d t acc dec ab still und,
-    run_round w_exec [o] [o] [d] = Done acc dec ab still und /\
-    In (o, [t]) acc /\ t_desc t = d /\ pvalid (o_ports o) /\
+  exists o d d2 t t2 acc dec still und,
+    run_round w_exec [o] [o] [d; d2] = Done acc dec still und /\
+    In (o, [t2; t]) acc /\ t_desc t = d /\ pvalid (o_ports o) /\
     d_constraints d <> [] /\ k_static_of d <> [] /\ t_dyn t <> [] /\ t_handed t <> None /\ dec = [].
 Proof.
   exists (w_offer [(w_zone, w_z1)] 1000 w_full).
   exists (mkDesc 0 [[mkC w_zone w_z1 0]; [mkC w_zone w_z2 0]] []
                  (Some (w_class 100 [(9050, 9050)] [mkChan 1 true]))).
+  exists (mkDesc 1 [[]] [] (Some (w_class 100 [(9000, 9000)] [mkChan 2 true]))).
   do 6 eexists. split; [vm_compute; reflexivity|].
   split; [left; reflexivity|]. split; [reflexivity|]. split; [exact w_full_valid|].
   repeat split; try (vm_compute; discriminate).
